@@ -133,7 +133,7 @@ static std::string run(const std::vector<Op> &h, std::string &viol, size_t reser
 // expands only its share (and everything below it). Every history extends exactly one such state, so the union of the
 // partitions is the whole space; states at depth <= PART_DEPTH, and states reachable from two partitions, are counted
 // once per partition that reaches them.
-static const size_t PART_DEPTH = 5;
+static const size_t PART_DEPTH = 6;
 static void main_(size_t depth, const char *part_s) {
   size_t reserve_n = 0; unsigned part = 0, nparts = 1; sscanf(part_s, "%u/%u", &part, &nparts); if (nparts < 1) nparts = 1;
   hx::Explorer<Op> ex; ex.name = "cabinet/part" + std::to_string(part) + "of" + std::to_string(nparts);
